@@ -252,6 +252,59 @@ def adversarial_lines(rng, count):
     return ops
 
 
+def maintenance_lines(rng, count):
+    """the maintenance calls of ThreadSafeVector between parallel phases: any history (1-2 threads, the
+    second one completes first), then clear / clear_fast / clear_after(k) / get_free_elements(n), then the
+    pool is used again: filled to capacity (one request more must report "full"), released, filled again;
+    get_number_of_active_elements is read along the way"""
+    ops = []
+    for _ in range(count):
+        size = rng.choice([1, 2, 2, 3])
+        two = rng.random() < 0.5
+        hist = []
+        held = 0                       # slots thread 0 holds (the other thread has finished by then)
+        for _ in range(rng.randint(0, 5)):
+            k = rng.choice(["gs", "gs", "gs", "f", "fb", "ap"])
+            if k == "gs" and held < size:
+                hist.append("gs"); held += 1
+            elif k in ("f", "fb") and held > 0:
+                hist.append("%s:%d" % (k, rng.randint(0, 2))); held -= 1
+            elif k == "ap" and held > 0:
+                hist.append("ap:0:%d" % rng.randint(1, 30))
+        kind = rng.choice(["cl", "cl", "cl", "cf", "ca", "gfe"])
+        mid = []
+        if kind == "cl":
+            mid = ["cl"]; held = 0
+        elif kind == "cf":
+            # clear_fast is only correct when nothing is held: release everything first (mostly)
+            if rng.random() < 0.8:
+                mid = ["f:0"] * held + ["cf"]; held = 0
+            else:
+                mid = ["cf"]
+        elif kind == "ca":
+            # premise of the source: the first k slots are in use -> take them as a block first
+            n = rng.randint(0, size)
+            k = rng.randint(0, n)
+            mid = ["cl", "gfe:%d" % n, "ca:%d" % k]; held = k
+        else:
+            n = rng.randint(0, size)
+            mid = ["cl", "gfe:%d" % n]; held = n
+        free = size - held
+        again = ["na"] + ["gs"] * free + ["gs", "na"] + ["f:0"] * size + ["na"] + ["gs"] * size + ["na", "cl", "na"]
+        progs = [hist + mid + again]
+        sched = "0"
+        if two:
+            other = []
+            for _ in range(rng.randint(1, 3)):
+                other += [rng.choice(["gs", "g"]), "f:0"]
+            # the calls are only legal between phases: thread 1 signals the end of its phase, thread 0 waits
+            other.append("i:0")
+            progs = [hist + ["aw:0:1"] + mid + again, other]
+            sched = rand_sched(rng, 2, rng.randint(4, 30))
+        ops.append(line(size, 1, 1, 1, [(0, None)], progs, "X", sched))
+    return ops
+
+
 def buffer_reuse_lines(rng, count):
     """deterministic schedules on a pool of 1-2 buffers that are filled, released and handed to the next
     requester: with the yield point of patches/hook_c08_memoryspace.diff a switch can fall between the wipe
@@ -433,6 +486,7 @@ def run(ctx):
     streams.append(("solo-pops", solo_lines(rng, ctx.budget(300, 8000))))
     streams.append(("hydro-counter-protocol", hydro_lines(rng, ctx.budget(300, 8000))))
     streams.append(("free-running", free_lines(rng, ctx.budget(40, 500))))
+    streams.append(("maintenance-calls", maintenance_lines(rng, ctx.budget(250, 6000))))
     streams.append(("buffer-reuse", buffer_reuse_lines(rng, ctx.budget(300, 8000))))
     streams.append(("buffer-hammer", buffer_hammer_lines(rng, ctx.budget(12, 60))))
     ctx.cov["rule"] = ("schedule replay of the real containers (hook H1, baton scheduler, real std::threads): "
@@ -514,7 +568,10 @@ MANIFEST = dict(
           "any state), max_is_maximum (+max_general with pending calls). MemorySpace::free_buffer as wipe-then-release: owner_writes_only (while a thread "
           "holds slot i no other thread writes buffer i) and handed_out_buffer_is_empty. Class-level contract of Task's setters (setupDeps models "
           "set_dependency / set_extra_dependency in any call order): task_setup_contract (lock_dependency on free locks succeeds iff the first dependency "
-          "was set first or the two resources differ), duplicate_never_handed_out, extra_only_locks_nothing, lock_dependency_returns. No theorem is left "
+          "was set first or the two resources differ), duplicate_never_handed_out, extra_only_locks_nothing, lock_dependency_returns. Maintenance calls of "
+          "ThreadSafeVector (clear, clear_fast = MemorySpace::reset, clear_after, get_free_elements) as operations on quiescent states between parallel "
+          "phases (Model/AtomicsMaint.lean): phase_poolInv (all pool invariants after any history of phases and calls), clear_restores_quiescent, "
+          "clear_after_restores_quiescent, clear_fast_requires_all_released (empty afterwards iff nothing was held), pool_reusable_after_clear. No theorem is left "
           "_partial. Model tied to the "
           "real containers by deterministic schedule replay of real std::threads through hook H1: returned values in schedule order and the "
           "final shared state identical, plus oracles on the implementation."),
@@ -535,7 +592,10 @@ MANIFEST = dict(
           "the oversubscribed buffer-hammer lines (owners stamp their buffers, check emptiness on hand-out and their stamp before release); with the "
           "patch the deterministic buffer-reuse schedules place a switch there. Candidate findings (reported in evidence.candidate_findings, not "
           "counted as violations because no call site uses these setter orders): set_extra_dependency(x) before set_dependency(x) makes a task that can "
-          "never be handed out; set_extra_dependency alone makes lock_dependency succeed without holding the declared resource."),
+          "never be handed out; set_extra_dependency alone makes lock_dependency succeed without holding the declared resource. The maintenance calls are "
+          "modelled under the premise the source states (not thread safe: every thread idle; clear_after: first k slots in use; get_free_elements: "
+          "empty vector); the harness evaluates these premises on the real objects before it checks the post-conditions; get_active_elements and "
+          "Scheduler.hpp remain unmodelled."),
     technique=("Lean 4 proof: sum-over-threads invariants (frame lemma + local step lemma per program counter + omega, lifted by List.foldl "
                "induction), ownership-frame arguments from slot/lock uniqueness, solo-run inductions for progress + deterministic schedule "
                "replay of real std::threads through a yield hook (baton scheduler), exhaustive schedule prefixes for two threads x short programs"))
